@@ -5,7 +5,11 @@
 // a harness DataSource whose schedule is owned by the generator: every BlockByNumber /
 // BlockHeaderLatest call parks on a gate; a rapid-drawn script decides which parked request is
 // answered next and how (correct block of the CURRENT source chain, injected error, corrupted
-// copy, stale head) and mutates the source chain between answers (extend, reorg, shorten).
+// copy, stale head, lagging head, or a WRONG-BUT-VALID block: a genuine, fully valid block that is
+// simply not the one asked for - a block the node already holds, a canonical block of a lower or
+// higher height, a genuine block of an abandoned fork at the requested or another height, the
+// requested block paired with the genuine state update of another block; see wrongPool) and
+// mutates the source chain between answers (extend, reorg, shorten).
 // The script also owns the timing of the store step's tail: it can arm a hold, the next store
 // step then blocks in the public EventListener hook OnSyncStepDone(OpStore) (block committed,
 // notifications and plugin call not yet made) until the script releases it; meanwhile the script
@@ -14,6 +18,10 @@
 // guard that only ever yields "inconclusive").
 // Observation: a plugin.JunoPlugin (called synchronously after every store / before every
 // revert), the sync.EventListener, the new-heads and reorg feeds, and the Blockchain reader.
+// Each of the three announcement channels of a store (OnSyncStepDone(OpStore), new-head feed,
+// plugin NewBlock) has its own "announced once per stored block, extending the head" oracle:
+// store-step-not-extending-head / store-step-without-plugin-call / store-without-listener-step,
+// new-head-not-extending-announced-chain (+ new-heads-not-subsequence when lossy), store-not-extending-head.
 // The two feeds are made lossless where possible: the plugin's NewBlock (called by the store step
 // after its notifications were sent) waits, bounded, until the feed readers have received them; if
 // that ever fails the case falls back to the lossy (subsequence) assertions only.
@@ -117,6 +125,36 @@ type delivered struct {
 	num       uint64
 	persisted chan error
 	ctx       context.Context // stream context of the request: once it is cancelled the block can no longer be stored
+	wrong     string          // kind of the wrong-but-valid answer this block was ("" = the block asked for, possibly corrupted)
+}
+
+// Wrong-but-valid answers: the source answers a block request with a GENUINE block (hash, commitments,
+// state update and classes verify in isolation) that is simply not the one asked for - what a stale or
+// confused replica does. Only the number/parent checks of the store step and the number/hash checks of
+// the revert task stand between such a block and the chain.
+const (
+	wvHeldHead    = "held-head"                   // the node's current head block (stale replica: h+1 answered with h)
+	wvHeldLower   = "held-below-head"             // a block the node holds below its head
+	wvCanonLower  = "canonical-lower-not-held"    // canonical block of a lower height the node does not hold (yet)
+	wvCanonHigher = "canonical-higher"            // canonical block of a height above the requested one
+	wvForkSame    = "abandoned-fork-same-height"  // genuine block of an abandoned fork at the requested height
+	wvForkOther   = "abandoned-fork-other-height" // genuine block of an abandoned fork at another height, not held by the node
+	wvSUOther     = "state-update-of-other-block" // the block asked for, paired with the genuine state update (and classes) of another block
+)
+
+var wvKinds = []string{wvHeldHead, wvHeldLower, wvCanonLower, wvCanonHigher, wvForkSame, wvForkOther, wvSUOther}
+
+type wrongAns struct {
+	kind        string
+	blk         *gen.Block // the genuine block served
+	su          *gen.Block // non-nil: blk's state update is replaced by the one of this genuine block
+	withClasses bool       // ... and its classes too
+	// classification (computed when the candidate is built)
+	held        bool // the node holds exactly this block at its height
+	staleNext   bool // the request is for the node's next height and the answer is the node's head
+	extendsHead bool // abandoned block whose number is head+1 and whose parent is the node's head: will be stored (it was canonical once)
+	comparison  bool // answer to the revert task's comparison fetch
+	aboveTip    bool // the request is for a height the source does not have (yet)
 }
 
 type everEntry struct {
@@ -205,7 +243,10 @@ type env struct {
 	nbuf         []note
 	lossy        bool // a notification was not received in time once: only the lossy assertions remain
 	nStores      int
-	openRange    bool // blocks were reverted since the last store
+	stepOpen     bool           // OnSyncStepDone(OpStore) was called and the plugin's NewBlock for that block has not been called yet
+	stepNum      uint64         // ... its block number
+	wrongFate    map[string]int // fate (stored / rejected(why) / dropped) of the wrong-but-valid blocks that reported back through Persisted
+	openRange    bool           // blocks were reverted since the last store
 	openStart    uint64
 	closedRanges int
 }
@@ -286,7 +327,7 @@ func (e *env) Class(context.Context, *felt.Felt) (core.ClassDefinition, error) {
 func (e *env) gate(ctx context.Context, kind reqKind, n uint64) answer {
 	e.mu.Lock()
 	if e.frozen {
-		a := e.makeAnswer(ctx, kind, n, "ok", nil, nil)
+		a := e.makeAnswer(ctx, kind, n, "ok", nil, nil, nil)
 		e.frozenAnswers++
 		e.mu.Unlock()
 		if a.err != nil || kind == kLatest {
@@ -337,9 +378,22 @@ func (e *env) dropDelivered(d *delivered) {
 }
 
 // makeAnswer computes the answer from the source chain as it is NOW (caller holds the lock).
-func (e *env) makeAnswer(ctx context.Context, kind reqKind, n uint64, how string, tm *tamper, stale *core.Header) answer {
+func (e *env) makeAnswer(ctx context.Context, kind reqKind, n uint64, how string, tm *tamper, stale *core.Header, wr *wrongAns) answer {
 	if how == "err" {
 		return answer{err: errInjected}
+	}
+	if kind == kBlock && how == "wrong" && wr != nil {
+		b := gen.CloneBlock(wr.blk)
+		if wr.su != nil {
+			o := gen.CloneBlock(wr.su)
+			b.SU = o.SU
+			if wr.withClasses {
+				b.Classes = o.Classes
+			}
+		}
+		d := &delivered{num: b.B.Number, persisted: make(chan error, 1), ctx: ctx, wrong: wr.kind}
+		e.dlv = append(e.dlv, d)
+		return answer{cb: jsync.CommittedBlock{Block: b.B, StateUpdate: b.SU, NewClasses: b.Classes, Persisted: d.persisted}, dl: d}
 	}
 	if kind == kLatest {
 		if how == "stale" && stale != nil {
@@ -365,18 +419,108 @@ func (e *env) makeAnswer(ctx context.Context, kind reqKind, n uint64, how string
 	return answer{cb: jsync.CommittedBlock{Block: b.B, StateUpdate: b.SU, NewClasses: b.Classes, Persisted: d.persisted}, dl: d}
 }
 
+// wrongPool lists, per kind, the wrong-but-valid answers available NOW for a block request of height h.
+// Candidates that would fall into a recorded finding or outside the property are left out and counted:
+//   - excluded (only when the known finding kfRevert is recorded): a block of number n whose parent is neither the
+//     canonical block n-1 nor the node's head could reach the store step with n = head+1 on top of a canonical head;
+//     Store then reports a parent mismatch and revertTask reverts that canonical head without asking the source
+//     (trigger (b)/(c) of the finding with a genuine fork block instead of a forged one);
+//   - redirected: a genuine fork block of the right height served to the revert task's comparison fetch while the
+//     node's block at that height is canonical (config.py assumption: nothing short of the source's word tells a
+//     replaced block from a canonical one).
+func (e *env) wrongPool(h uint64, known bool) (kinds []string, cands map[string][]wrongAns, excluded, redirected int) {
+	e.mu.Lock()
+	defer e.mu.Unlock()
+	L, S := uint64(len(e.stack)), uint64(len(e.chain.Blocks))
+	canonHash := func(n uint64, hash *felt.Felt) bool { return n < S && e.chain.Blocks[n].B.Hash.Equal(hash) }
+	heldB := func(b *gen.Block) bool { return b.Num() < L && e.stack[b.Num()].Equal(b.B.Hash) }
+	comparison := h < L
+	cands = map[string][]wrongAns{}
+	add := func(kind string, b *gen.Block) {
+		n, parent := b.Num(), b.B.ParentHash
+		w := wrongAns{kind: kind, blk: b, held: heldB(b), comparison: comparison, aboveTip: h >= S}
+		w.staleNext = kind == wvHeldHead && h == L
+		w.extendsHead = !canonHash(n, b.B.Hash) && n == L && (n == 0 || e.stack[n-1].Equal(parent))
+		switch {
+		case comparison:
+			if n == h && canonHash(h, &e.stack[h]) && !e.stack[h].Equal(b.B.Hash) {
+				redirected++
+				return
+			}
+		case known:
+			safe := n < L || n == 0 || canonHash(n-1, parent) || (n == L && e.stack[n-1].Equal(parent))
+			if !safe {
+				excluded++
+				return
+			}
+		}
+		cands[kind] = append(cands[kind], w)
+	}
+	if L > 0 {
+		if ent := e.ever[e.stack[L-1]]; ent != nil && ent.b.Num() != h {
+			add(wvHeldHead, ent.b)
+		}
+	}
+	for i := uint64(0); i+1 < L; i++ {
+		if ent := e.ever[e.stack[i]]; ent != nil && i != h {
+			add(wvHeldLower, ent.b)
+		}
+	}
+	for i := uint64(0); i < S; i++ {
+		b := e.chain.Blocks[i]
+		switch {
+		case i == h || heldB(b):
+		case i < h:
+			add(wvCanonLower, b)
+		default:
+			add(wvCanonHigher, b)
+		}
+	}
+	for _, b := range e.all {
+		switch {
+		case canonHash(b.Num(), b.B.Hash):
+		case b.Num() == h:
+			add(wvForkSame, b) // held or not: a replica that still serves the block the node has to give up
+		case !heldB(b):
+			add(wvForkOther, b)
+		}
+	}
+	if h < S {
+		// rejected by the first sanity check (block hash != state update's block hash) wherever it is served
+		blk := e.chain.Blocks[h]
+		for _, b := range e.all {
+			if !b.B.Hash.Equal(blk.B.Hash) {
+				cands[wvSUOther] = append(cands[wvSUOther], wrongAns{kind: wvSUOther, blk: blk, su: b, comparison: comparison})
+			}
+		}
+	}
+	for _, k := range wvKinds {
+		if len(cands[k]) > 0 {
+			kinds = append(kinds, k)
+		}
+	}
+	return kinds, cands, excluded, redirected
+}
+
 // answerReq answers the parked request id. It returns false when the request is gone (cancelled by a stream reset).
 func (e *env) answerReq(id int, how string, tm *tamper, stale *core.Header) bool {
+	return e.answerReqW(id, how, tm, stale, nil)
+}
+
+func (e *env) answerReqW(id int, how string, tm *tamper, stale *core.Header, wr *wrongAns) bool {
 	e.mu.Lock()
 	defer e.mu.Unlock()
 	for i, r := range e.pending {
 		if r.id != id {
 			continue
 		}
-		a := e.makeAnswer(r.ctx, r.kind, r.num, how, tm, stale)
+		a := e.makeAnswer(r.ctx, r.kind, r.num, how, tm, stale, wr)
 		e.pending = append(e.pending[:i], e.pending[i+1:]...)
 		e.answered++
 		desc := how
+		if wr != nil && how == "wrong" {
+			desc = "WRONG-BUT-VALID(" + wr.kind + ")"
+		}
 		switch {
 		case a.err != nil:
 			desc += " -> " + a.err.Error()
@@ -393,6 +537,9 @@ func (e *env) answerReq(id int, how string, tm *tamper, stale *core.Header) bool
 			desc += fmt.Sprintf(" -> block #%d %s parent %s", a.cb.Block.Number, short(a.cb.Block.Hash), short(a.cb.Block.ParentHash))
 			if tm != nil {
 				desc += " tamper=" + tm.name
+			}
+			if wr != nil && wr.su != nil {
+				desc += fmt.Sprintf(" with the state update of #%d %s (classes too: %v)", wr.su.Num(), short(wr.su.B.Hash), wr.withClasses)
 			}
 		}
 		e.logf("answer %s %s   [source len %d tip %s]", r, desc, len(e.chain.Blocks), short(e.chain.Blocks[len(e.chain.Blocks)-1].B.Hash))
@@ -451,6 +598,10 @@ func (p plug) NewBlock(block *core.Block, su *core.StateUpdate, classes map[felt
 			block.Number, short(block.Hash), len(e.ann), shortLast(e.ann))
 	}
 	e.nStores++
+	if !e.stepOpen || e.stepNum != block.Number {
+		e.violate("store-without-listener-step", "plugin NewBlock(#%d %s) is not preceded by exactly one OnSyncStepDone(OpStore, %d) (open step: %v #%d)", block.Number, short(block.Hash), block.Number, e.stepOpen, e.stepNum)
+	}
+	e.stepOpen = false
 	if e.openRange {
 		e.openRange = false
 		e.closedRanges++
@@ -528,6 +679,18 @@ func (l listener) OnSyncStepDone(op string, num uint64, _ time.Duration) {
 	e := l.e
 	e.mu.Lock()
 	e.storeSteps++
+	// announcement channel 3 (after the plugin and the new-head feed): one store step per stored block, each for the
+	// block that extends the node's head and is committed by now
+	if e.stepOpen {
+		e.violate("store-step-without-plugin-call", "OnSyncStepDone(OpStore, %d) follows OnSyncStepDone(OpStore, %d) without a plugin NewBlock call between them", num, e.stepNum)
+	}
+	e.stepOpen, e.stepNum = true, num
+	if num != uint64(len(e.stack)) {
+		e.violate("store-step-not-extending-head", "OnSyncStepDone(OpStore, %d) announced while the node's head is %s: a store step is announced once per stored block and every stored block extends the head",
+			num, shortLast(e.stack))
+	} else if hd, err := e.bc.HeadsHeader(); err != nil || hd.Number != num || (num > 0 && !hd.ParentHash.Equal(&e.stack[num-1])) {
+		e.violate("store-step-block-not-committed", "OnSyncStepDone(OpStore, %d) announced but the reader's head is %v (err %v), not a block #%d on top of %s", num, hd, err, num, shortLast(e.stack))
+	}
 	var h *hold
 	if !e.frozen && e.held == nil && (e.holdArmed == armAny || e.holdArmed == armTip && num+1 == uint64(len(e.chain.Blocks))) {
 		e.holdArmed = 0
@@ -795,7 +958,7 @@ type rig struct {
 
 // start builds the node (pre-loaded with the first `have` blocks of the chain) and starts the synchronizer.
 func start(u *gen.Universe, ch *gen.Chain, newState bool, have int) *rig {
-	e := &env{u: u, chain: ch, ever: map[felt.Felt]*everEntry{}, revertedEver: map[felt.Felt]bool{}, lastHeldEvIdx: -1}
+	e := &env{u: u, chain: ch, ever: map[felt.Felt]*everEntry{}, revertedEver: map[felt.Felt]bool{}, lastHeldEvIdx: -1, wrongFate: map[string]int{}}
 	e.register(ch.Blocks)
 	nd := node.New(newState, nil, u.Net)
 	for _, b := range ch.Blocks[:have] {
@@ -873,6 +1036,20 @@ func (e *env) pollHeld() (counters, int, bool) {
 			e.persistedSeen++
 			if err != nil {
 				e.logf("  node dropped delivered block #%d: %v", d.num, err)
+			}
+			if d.wrong != "" {
+				switch {
+				case err == nil:
+					e.wrongFate["stored"]++
+				case errors.Is(err, context.Canceled):
+					e.wrongFate["dropped(stream reset)"]++
+				case errors.Is(err, blockchain.ErrParentDoesNotMatchHead):
+					e.wrongFate["rejected(parent mismatch -> revert task)"]++
+				case strings.Contains(err.Error(), "expected block #"):
+					e.wrongFate["rejected(number)"]++
+				default:
+					e.wrongFate["rejected(verification)"]++
+				}
 			}
 		default:
 			// blocks fetched by revertTask (hash comparison only) never report; they die with their stream context
@@ -964,6 +1141,13 @@ func (e *env) view() view {
 	return v
 }
 
+func (e *env) canonicalHeader(n int) *core.Header {
+	e.mu.Lock()
+	defer e.mu.Unlock()
+	h := *e.chain.Blocks[n].B.Header
+	return &h
+}
+
 func (e *env) converged() bool {
 	if len(e.stack) != len(e.chain.Blocks) {
 		return false
@@ -1014,7 +1198,7 @@ func (r *rig) freezeAndConverge(c *stats.Case, bound int) outcome {
 	e.frozen = true
 	e.logf("SOURCE frozen: len %d tip %s; answering %d parked requests", len(e.chain.Blocks), short(e.chain.Blocks[len(e.chain.Blocks)-1].B.Hash), len(e.pending))
 	for _, p := range e.pending {
-		p.ch <- e.makeAnswer(p.ctx, p.kind, p.num, "ok", nil, nil)
+		p.ch <- e.makeAnswer(p.ctx, p.kind, p.num, "ok", nil, nil, nil)
 		e.frozenAnswers++
 	}
 	e.pending = nil
@@ -1183,7 +1367,7 @@ func TestRaceSyncConvergesUnderScriptedSource(t *testing.T) {
 	defer runtime.GOMAXPROCS(runtime.GOMAXPROCS(0))
 	known := stats.Known(kfRevert)
 	stats.Check(t, stats.Budget{Quick: 45, Thorough: 450},
-		"real Synchronizer+Blockchain (either backend, GOMAXPROCS 2-4 => 1-4 fetchers, node pre-loaded with 0..all blocks) against a gated DataSource; rapid script of 5-50 steps: answer any parked request (ok of the CURRENT chain / injected error / one of 11 corruptions / stale head) or mutate the source (extend 1-3, reorg of any depth incl. genesis, shorten), or arm a hold (the next store step blocks in the public listener hook OnSyncStepDone(OpStore) after its commit, before its notifications) / release it; while a step is held the script goes on answering and mutating, with a bias towards reorgs at or just below the held height that leave the source as long as the node (+-1); then frozen source, convergence decided by request count; oracles over the plugin/listener/feed history incl. the announced chain replayed from both feeds (made lossless by waiting for the readers in the plugin call); non-trivial = reorg or shorten lands while >=1 request is parked or at/below a held store step, or a fetch error answered when remote height = local height, or a corrupted block served",
+		"real Synchronizer+Blockchain (either backend, GOMAXPROCS 2-4 => 1-4 fetchers, node pre-loaded with 0..all blocks) against a gated DataSource; rapid script of 5-50 steps: answer any parked request (ok of the CURRENT chain / injected error / one of 11 corruptions / stale or lagging head / for block requests, 18% (32% above the source tip), a WRONG-BUT-VALID answer = a genuine block that is not the one asked for, kind drawn uniformly among the available ones: the node's head, a held block below it, a canonical block of a lower height not held / of a higher height, a genuine abandoned-fork block of the requested / of another height, the requested block with the genuine state update (+classes) of another block) or mutate the source (extend 1-3, reorg of any depth incl. genesis, shorten), or arm a hold (the next store step blocks in the public listener hook OnSyncStepDone(OpStore) after its commit, before its notifications) / release it; while a step is held the script goes on answering and mutating, with a bias towards reorgs at or just below the held height that leave the source as long as the node (+-1); then frozen source, convergence decided by request count; oracles over the plugin/listener/feed history incl. the announced chain replayed from both feeds (made lossless by waiting for the readers in the plugin call); non-trivial = reorg or shorten lands while >=1 request is parked or at/below a held store step, or a fetch error answered when remote height = local height, or a corrupted block served, or a wrong-but-valid block served",
 		func(rt *rapid.T, c *stats.Case) { runCase(rt, c, known) })
 }
 
@@ -1299,6 +1483,7 @@ func runCase(rt *rapid.T, c *stats.Case, known bool) {
 			how := "ok"
 			var tm *tamper
 			var stale *core.Header
+			var wr *wrongAns
 			hd := rapid.IntRange(0, 99).Draw(rt, "how")
 			if p.kind == kBlock {
 				switch {
@@ -1334,6 +1519,43 @@ func runCase(rt *rapid.T, c *stats.Case, known bool) {
 					}
 					c.NonTrivial("corrupted-block-served")
 					c.Label("tamper:" + tm.name)
+				case hd < 48:
+					// wrong-but-valid answer: a genuine block that is not the one asked for (also to requests above the source's tip)
+					kinds, cands, nx, nr := e.wrongPool(p.num, known)
+					if nx > 0 {
+						c.Excluded(kfRevert) // nx candidates were left out of the pool this draw is made from
+					}
+					if nr > 0 {
+						c.Label("comparison-fetch-genuine-fork-block-redirected")
+					}
+					if len(kinds) > 0 {
+						k := kinds[gen.Uniform(rt, len(kinds), "wrongKind")]
+						w := cands[k][gen.Uniform(rt, len(cands[k]), "wrongWhich")]
+						if w.su != nil {
+							w.withClasses = rapid.Bool().Draw(rt, "wrongClasses")
+						}
+						how, wr = "wrong", &w
+						c.NonTrivial("wrong-but-valid-block-served")
+						c.Label("wrong-valid:" + k)
+						if w.held {
+							c.Label("wrong-valid:block-the-node-already-holds")
+						}
+						if w.staleNext {
+							c.Label("wrong-valid:next-height-answered-with-the-node's-head")
+						}
+						if w.extendsHead {
+							c.Label("wrong-valid:abandoned-block-that-extends-the-node's-head")
+						}
+						if w.comparison {
+							c.Label("wrong-valid:answer-to-comparison-fetch")
+						} else if w.aboveTip {
+							c.Label("wrong-valid:answer-to-request-above-source-tip")
+						}
+						if v.held >= 0 {
+							c.Label("wrong-valid:while-store-step-held")
+						}
+						c.Fp("w%s:%d", k, w.blk.Num())
+					}
 				}
 				if how == "ok" && p.num >= uint64(v.srcLen) {
 					c.Label("answer-not-found")
@@ -1365,6 +1587,11 @@ func runCase(rt *rapid.T, c *stats.Case, known bool) {
 							c.Label("stale-head")
 						}
 					}
+				case hd < 55 && v.srcLen >= 2:
+					// lagging replica: the header of a canonical block below the tip, whether or not it ever was the source's head
+					stale = e.canonicalHeader(rapid.IntRange(0, v.srcLen-2).Draw(rt, "lagHeight"))
+					how = "stale"
+					c.Label("lagging-head(canonical block below the tip)")
 				}
 			}
 			if v.held >= 0 {
@@ -1379,7 +1606,7 @@ func runCase(rt *rapid.T, c *stats.Case, known bool) {
 				c.Label("answered-out-of-order")
 			}
 			prev, _ = e.poll()
-			if !e.answerReq(p.id, how, tm, stale) {
+			if !e.answerReqW(p.id, how, tm, stale, wr) {
 				c.Label("answer-raced-with-stream-reset")
 			}
 			if !r.settle(prev, !p.poll) {
@@ -1516,6 +1743,9 @@ func runCase(rt *rapid.T, c *stats.Case, known bool) {
 	}
 	modeSwitch := e.cancels
 	nHeld, heldRev, holdTO := e.holdsStarted, e.heldThenReverted, e.holdTimeouts
+	for k := range e.wrongFate {
+		c.Label("wrong-valid-fate:" + k)
+	}
 	if e.reorgSeenWhileHeld > 0 {
 		c.Label("held:reorg-check-sees-replaced-head-while-store-held")
 	}
